@@ -25,7 +25,7 @@ REAL_VS_STUB = {'real': ['kyupy.circuit: GrowingList, IndexList, Node, Line, Cir
                 'stub': ['none (RefGraph is the reference model, not a replacement)']}
 ASSUMPTIONS = ['trailing unconnected pin slots (None at the end of a pin list) are not part of the compared state: a restore legitimately drops them',
                'substitute is checked by the invariants after the step and the model is re-synchronised from the real object (its rewiring is too rich to predict; its function preservation is C10)']
-EXPECTED_PROBES = ['wide_fork', 'double_remove', 'shared_name', 'hole_filled_by_last', 'restore_mid_history', 'copy_mid_history', 'duplicate_name_rejected', 'explicit_pin', 'fork_squeeze', 'eliminate_spliced', 'eliminate_kept_undriven', 'substitute_done', 'substitute_ignored_input']
+EXPECTED_PROBES = ['original_checked_after_edits_on_copy', 'wide_fork', 'double_remove', 'shared_name', 'hole_filled_by_last', 'restore_mid_history', 'copy_mid_history', 'duplicate_name_rejected', 'explicit_pin', 'fork_squeeze', 'eliminate_spliced', 'eliminate_kept_undriven', 'substitute_done', 'substitute_ignored_input']
 
 KINDS = ['and', 'or', 'nand', 'not', 'buf', 'xor', 'dff', 'latch', 'input', 'output', 'AOI21', 'mux21', 'DFFX1', '__const0__', 'INPUT', 'OUTPUT', 'SDFFLATCHX1', 'Put', 'DLATCH']
 OPS = ['node', 'node', 'node', 'fork', 'line', 'line', 'line', 'line', 'linex', 'linex', 'rmline', 'rmline', 'rmnode', 'gof', 'io', 'ioset', 'elim', 'subst', 'copy', 'restore', 'dup']
@@ -85,6 +85,7 @@ class Exec:
         self.hole = False
         self.restored = False
         self.resync = False
+        self.left_behind = []
 
     def node_obj(self, key):
         return (self.c.forks if key[1] else self.c.cells)[key[0]]
@@ -256,6 +257,7 @@ class Exec:
                 same = False
             if not same:
                 res.violate('graph-restore-not-equal', f'step {k}: {"copy()" if kind == "copy" else "pickle round trip"} gives a circuit that does not compare equal to the original')
+            if len(self.left_behind) < 4: self.left_behind.append((c, graphsim.real_signature(c), k, kind))      # the object the history leaves behind
             self.c = new
             self.restored = True
             res.fault('F-restore')
@@ -284,6 +286,14 @@ def execute(case):
             ex.resync = False
         if not graphsim.check_iso(ex.c, ex.m, res, k, did): return res
         if was_restored and op[0] not in ('copy', 'restore'): edits_after_restore = True
+    # the objects that copies were taken from were not edited any more: they must be exactly what they were, whatever was done
+    # to their copies (a copy that shares nodes, lines or tables with its original would show here)
+    for old, sig, k0, how in ex.left_behind:
+        if graphsim.real_signature(old) != sig:
+            res.violate('graph-copy-not-independent', f'the circuit that step {k0} ({how}) was taken from changed although only its copy was edited afterwards')
+            return res
+        if not graphsim.check_invariants(old, res, k0, f'object left behind by {how}'): return res
+        res.probe('original_checked_after_edits_on_copy')
     res.nontrivial = ex.dirty_after_hole or edits_after_restore
     return res
 
